@@ -379,6 +379,9 @@ func c19Value(r *lib.Run, mode c19Mode, l *lib.Leaf, v interface{}, yt *yang.Yan
 				continue
 			}
 			pfx, name := splitMember(s)
+			if s == pl {
+				pfx, name = "", s // an enum name may itself contain ':'
+			}
 			if name != pl {
 				bad("name", "expected name "+pl)
 				continue
